@@ -392,6 +392,12 @@ func equals(t types.Type, x, y value) bool {
 		yi := y.(iface)
 		return sameType(x.t, yi.t) && (x.t == nil || equals(x.t, x.v, yi.v))
 	}
+	if ps, ok := x.(poison); ok {
+		panic(engineError{"comparison with uninitialised global " + ps.what})
+	}
+	if ps, ok := y.(poison); ok {
+		panic(engineError{"comparison with uninitialised global " + ps.what})
+	}
 	panic(targetPanic{v: fmt.Sprintf("runtime error: comparing uncomparable type %s", t)})
 }
 
